@@ -226,10 +226,9 @@ class QuantitySerializer(Serializer):
 
     def serialize(self, data: Any) -> Union[List[str], str]:
         try:
-            return_value = []
-            for subvalue in data:
-                return_value.append(f"!units[{str(subvalue)}]")
-            return return_value
+            # an array quantity becomes a (nested) list with one string
+            # per element, whatever the number of dimensions
+            return [self.serialize(subvalue) for subvalue in data]
         except TypeError:
             return f"!units[{str(data)}]"
 
